@@ -204,12 +204,21 @@ func stack(c dspace.Case, w *enum.Worker) {
 			at := "end"
 			if k < len(types) {
 				at = types[k]
+				if at == "Payload" && k > 0 {
+					at = "Payload after " + types[k-1]
+				}
 			}
 			w.Violation("c06|stack|layer-sequence-differs|at "+at, fmt.Sprintf("stack %s written with SerializePacket decodes as %s", stackName, strings.Join(types2, "/")))
 			return
 		}
 		if p2.Metadata().Truncated {
-			w.Violation("c06|stack|truncated-flag-set|"+stackName, "decoding the written stack sets the truncation flag")
+			// keyed by the innermost two layer types (the flag is set by the layer that finds the
+			// bytes after it short or superfluous; the carriers in front do not matter)
+			inner := types
+			if len(inner) > 2 {
+				inner = inner[len(inner)-2:]
+			}
+			w.Violation("c06|stack|truncated-flag-set|"+strings.Join(inner, "/"), "decoding the written stack "+stackName+" sets the truncation flag")
 			return
 		}
 		for i := range ls {
